@@ -30,6 +30,16 @@ Part B  seeded sample of compositions of 16..64 (some 72..128) bits in five clas
         (alone, between other fields, between vectorisable Ints, two runs separated by a non-Bits field).
 Part C  runs whose total is not a multiple of 8 (alone, embedded, one of two runs, the
         "split" case of the documentation) must be rejected with ByteBoundaryError.
+Part D  the bit-run packets are reached through the other ways a packet object comes to be: nested as Ref(X),
+        Ref(X(member values)), Ref(X).repeated(n[, default=[..]]), Ref(X).when(c[, default=..]), Ref(callable, default=X(..)),
+        two levels deep, inside a container that is default-constructed / keyword-constructed / unpacked; and as
+        copy.copy / copy.deepcopy / pickle round trip / as_prototype().clone() of built and of parsed packets (bit-run
+        packets, containers, packets taken out of / put into a container; classes importable = picklable, function-local and
+        exec-defined = the library clones live objects).  After each: every member reads its slice / assigned value, pack
+        equals the arithmetic model of the packet's own values (modulo 2^w, MSB first), assignments after the copy are
+        honoured, the source is not disturbed by operations on the copy and vice versa, siblings cloned from the same Ref
+        prototype are independent.  A copy protocol that raises (pickle protocols 0/1 on the unchanged tree) is counted,
+        not judged.
 """
 import os
 import sys
@@ -56,6 +66,21 @@ REQUIRED = (
     "packs_after_failed_pack_repaired", "packs_after_failed_pack_existing",
     "histories_solo", "histories_embedded", "histories_two_runs", "histories_failure_at_non_first_field",
     "histories_variant_g", "histories_variant_d", "histories_variant_nv",
+    # part D: packets that come to be through nesting / copying
+    "nest_families_defined", "nest_families_define_file", "nest_families_define_local", "nest_families_define_exec",
+    "nest_families_instances_picklable", "nest_families_instances_not_picklable",
+    "nested_default_checked", "nested_kw_checked", "nested_unpack_checked", "nested_then_assigned_compared",
+    "nested_ref_class_packets_compared", "nested_ref_instance_packets_compared", "nested_repeated_packets_compared",
+    "nested_optional_packets_compared", "nested_optional_absent_checked", "nested_callable_ref_packets_compared",
+    "nested_two_levels_packets_compared", "nested_two_levels_instance_packets_compared",
+    "copies_copy_compared", "copies_deepcopy_compared", "copies_pickle_compared", "copies_clone_compared",
+    "copies_of_built_compared", "copies_of_parsed_compared", "copies_of_bit_run_packets_compared",
+    "copies_of_nesting_packets_compared", "copies_of_a_nested_packet_compared", "copies_attached_to_container_compared",
+    "copies_picklable_class_compared", "copies_live_object_path_compared",
+    "copy_then_assign_compared", "original_after_ops_on_copy_compared", "copy_after_ops_on_original_compared",
+    "sibling_after_ops_on_sibling_compared",
+    "nest_checks_inner_variant_g", "nest_checks_inner_variant_d", "nest_checks_inner_variant_nv",
+    "nest_checks_outer_variant_g", "nest_checks_outer_variant_d", "nest_checks_outer_variant_nv",
 )
 RULE = {
     "quick": "Part A (exhaustive): every composition of 8 bits (128) as a class of consecutive Bits fields under the three "
@@ -69,15 +94,24 @@ RULE = {
              "brand-new / unpacked / pre-existing / repaired packets of the same class are packed and compared with the model "
              "of their own values; 7 templates incl. valid-fail-valid-valid interleavings) for positions j of every run.  Part C: ~1000 runs with total not a multiple of 8 (all compositions of 1..7 bits, samples of "
              "9..63 incl. totals = 4 mod 8; alone, embedded, first/second/both of two runs, split 9,4|Int|3) must raise "
-             "ByteBoundaryError at class definition.  One evaluation = one library call sequence compared with the model "
-             "(one unpack, one pack scenario, one truncation, one definition).  Non-trivial: the run has >= 2 fields (a "
-             "neighbour exists) or the case is a definition-time rejection; distinct = distinct (shape, widths, option set, "
-             "operation kind) tuples.",
+             "ByteBoundaryError at class definition.  Part D: ~200 seeded families = one bit-run class X (every third an 8-bit "
+             "composition rotating through all 128, the others 16..64 bits, all shapes, declared defaults) + X_O (f=Ref(X), "
+             "g=Ref(X(values)), h=Ref(X).repeated(n or 2[, default]), o=Ref(X).when(tag == 1[, default]), c=Ref(callable, "
+             "default=X(..))) + X_M/X_T (two levels), inner/outer option sets in all 9 pairs, defined in an importable module "
+             "(instances picklable) / inside a function / through exec (not picklable: live-object clone path); per family ~23 "
+             "histories: copy x {copy, deepcopy, pickle default/-1/2, as_prototype().clone()} of built/parsed/default bit-run "
+             "packets and containers (copy of a copy, clone twice from one prototype, packet taken out of / attached into a "
+             "container), containers default/keyword(partial, full)/unpacked, then assignments (19 value classes) on copy and "
+             "source and a check of each against its own model.  One evaluation = one library call sequence compared with the model "
+             "(one unpack, one pack scenario, one truncation, one definition, one part-D history).  Non-trivial: the run has >= 2 "
+             "fields (a neighbour exists) or the case is a definition-time rejection or a part-D history; distinct = distinct "
+             "(shape, widths, option set(s), operation kind / history template) tuples.",
     "thorough": "As quick, plus Part T (exhaustive, sharded by composition index): every composition of 16 bits (32768) defined "
                 "through exec with generation off, each with walking/per-field/random unpack patterns, every field x 19 value "
                 "classes on pack, truncations; every 8th embedded between other fields; a sample per shard from source files with "
                 "generation on (default and vectorize=False); all 65536 patterns for a few compositions per shard.  Part B with "
-                "~2000 compositions per shard, Part C with all compositions of totals 1..7 and 9..15 sharded plus samples.  "
+                "~2000 compositions per shard, Part C with all compositions of totals 1..7 and 9..15 sharded plus samples, Part D with "
+                "~400 families per shard (family index interleaved over shards) and the richer history set.  "
                 "Non-trivial/distinct as in quick.",
 }
 ASSUMPTIONS = [
@@ -91,6 +125,14 @@ ASSUMPTIONS = [
     "truncated input inside a run is judged only as 'must raise PacketError' (which field/offset it names is C12's business)",
     "the non-Bits fields around a run (Int, Data of fixed size) always get valid in-range values; they are compared too, "
     "only to detect a run that reads/writes a wrong number of bytes",
+    "part D: a copy protocol that raises for packets (pickle protocols 0 and 1 on the unchanged tree: slots without "
+    "__getstate__) is counted and not judged; when the copy call returns, the copy is judged like any packet: it must read "
+    "the values of its source at that moment and pack them per the model",
+    "part D: copy.copy is shallow by Python's definition: on a shallow copy of a container only whole sub-packets are replaced, "
+    "shared ones are never mutated, so the verdict does not depend on what is shared",
+    "part D: containers follow the documented semantics that are not C07's subject: Ref(X) defaults to a clone of its prototype, "
+    "repeated/when default to the declared default ([] / None if none), pack writes the list/packet held (count/when ignored on "
+    "pack), unpack reads n elements and the optional part iff tag == 1",
     "classes are defined with the default class endianness except a small marked subset using {'endianness': 'little'} in shapes "
     "without multi-byte Ints: the statement fixes the run as big-endian unconditionally",
 ]
@@ -1447,6 +1489,976 @@ def part_t16(ctx, rng, shard, nshards, deadline):
 
 
 # =============================================================================================
+# Part D: bit-run packets that come to be through nesting and copying
+# =============================================================================================
+# A "family" is one bit-run class X (a Decl, exactly as in the other parts) plus packets that reach X
+# through the library's ways of making packet objects:
+#     X_O:  tag=Int(1); n=Int(1, default=2); f=Ref(X); g=Ref(X(<member values>));
+#           h=Ref(X).repeated(n[, default=[X(..), X(..)]]); o=Ref(X).when(tag == 1[, default=X(..)]);
+#           c=Ref(lambda **k: X(), default=X(..)); end=Int(1)
+#     X_M:  k=Int(1); f=Ref(X)                                  (middle packet)
+#     X_T:  m=Ref(X_M); q=Ref(X_M(k=.., f=X(..))); e=Int(1)     (two levels of nesting)
+# The model of a container is the concatenation of the models of its parts (a repeated field holds n elements on
+# unpack and packs the elements of its list; an optional one is present on unpack iff tag == 1 and packs iff it is
+# not None); the model of every X inside is the arithmetic model of the run (model_encode / model_decode).
+NEST_HEADER = "from bisturi.packet import Packet\nfrom bisturi.field import Bits, Int, Data, Ref\n\n"
+DEFINE_MODES = ("file", "local", "exec")
+HOWS_MAIN = ("copy", "deepcopy", "pickle", "pickle_hi", "pickle2", "clone")
+HOWS_PROBE = ("pickle0", "pickle1")
+PICKLE_PROTOCOL = {"pickle": None, "pickle_hi": -1, "pickle2": 2, "pickle0": 0, "pickle1": 1}
+HOW_TEXT = {"copy": "copy.copy", "deepcopy": "copy.deepcopy", "clone": "as_prototype().clone()",
+            "pickle": "pickle round trip (default protocol)", "pickle_hi": "pickle round trip (protocol -1)",
+            "pickle2": "pickle round trip (protocol 2)", "pickle0": "pickle round trip (protocol 0)",
+            "pickle1": "pickle round trip (protocol 1)"}
+PATH_KIND = {"f": "ref_class", "g": "ref_instance", "h": "repeated", "o": "optional", "c": "callable_ref",
+             "m": "two_levels", "q": "two_levels_instance"}
+
+
+class Family:
+    __slots__ = ("d", "spec", "src", "mode", "classes", "lays", "picklable", "module")
+
+    def key(self):
+        return "%s|o=%s|%s" % (self.d.key(), self.spec["ovariant"], self.mode)
+
+
+def _kwsrc(lay, partial):
+    """source text of the keyword arguments that build `partial` (see default_model)."""
+    out = []
+    if lay[0] == "leaf":
+        for n in lay[1].names:
+            if n in partial:
+                out.append("%s=%r" % (n, partial[n]))
+        return ", ".join(out)
+    for e in lay[2]:
+        if e[1] not in partial:
+            continue
+        p = partial[e[1]]
+        if e[0] == "int":
+            out.append("%s=%r" % (e[1], p))
+        elif e[0] == "pkt":
+            out.append("%s=%s(%s)" % (e[1], lay_class(e[2]), _kwsrc(e[2], p)))
+        elif e[0] == "seq":
+            out.append("%s=[%s]" % (e[1], ", ".join("%s(%s)" % (lay_class(e[2]), _kwsrc(e[2], x)) for x in p)))
+        elif e[0] == "opt":
+            out.append("%s=%s" % (e[1], "None" if p is None else "%s(%s)" % (lay_class(e[2]), _kwsrc(e[2], p))))
+    return ", ".join(out)
+
+
+def lay_class(lay):
+    return lay[1].name if lay[0] == "leaf" else lay[1]
+
+
+def build_family(d, fspec):
+    """fspec: {'ovariant', 'g', 'hd', 'od', 'cd', 'q', 'count', 'define'} (partials are keyword values of X)."""
+    fam = Family()
+    fam.d, fam.mode, fam.classes, fam.picklable, fam.module = d, fspec["define"], {}, None, None
+    fam.spec = dict(fspec)
+    fam.spec["inner"] = d.spec()
+    X = d.name
+    leaf = ("leaf", d)
+    count = "n" if fspec["count"] == "field" else 2
+    lay_m = ("node", X + "_M", [("int", "k", 0), ("pkt", "f", leaf, {})])
+    lay_o = ("node", X + "_O", [
+        ("int", "tag", 0), ("int", "n", 2),
+        ("pkt", "f", leaf, {}),
+        ("pkt", "g", leaf, fspec["g"]),
+        ("seq", "h", leaf, count, fspec["hd"]),
+        ("opt", "o", leaf, fspec["od"]),
+        ("pkt", "c", leaf, fspec["cd"]),
+        ("int", "end", 0)])
+    lay_t = ("node", X + "_T", [("pkt", "m", lay_m, {}), ("pkt", "q", lay_m, fspec["q"]), ("int", "e", 0)])
+    fam.lays = {"leaf": leaf, "outer": lay_o, "mid": lay_m, "deep": lay_t}
+    opts = dict(OPTS[fspec["ovariant"]])
+    optline = ["    __bisturi__ = %r" % (opts,)] if fspec["ovariant"] != "d" else []
+    L = [d.src.rstrip("\n"), ""]
+    L += ["class %s_O(Packet):" % X] + optline
+    L += ["    tag = Int(1)", "    n = Int(1, default=2)",
+          "    f = Ref(%s)" % X,
+          "    g = Ref(%s(%s))" % (X, _kwsrc(leaf, fspec["g"]))]
+    cnt = "n" if fspec["count"] == "field" else "2"
+    if fspec["hd"] is None:
+        L.append("    h = Ref(%s).repeated(%s)" % (X, cnt))
+    else:
+        L.append("    h = Ref(%s).repeated(%s, default=[%s])" % (X, cnt, ", ".join("%s(%s)" % (X, _kwsrc(leaf, p)) for p in fspec["hd"])))
+    if fspec["od"] is None:
+        L.append("    o = Ref(%s).when(tag == 1)" % X)
+    else:
+        L.append("    o = Ref(%s).when(tag == 1, default=%s(%s))" % (X, X, _kwsrc(leaf, fspec["od"])))
+    L.append("    c = Ref(lambda **k: %s(), default=%s(%s))" % (X, X, _kwsrc(leaf, fspec["cd"])))
+    L.append("    end = Int(1)")
+    L += ["", "class %s_M(Packet):" % X] + optline + ["    k = Int(1)", "    f = Ref(%s)" % X]
+    L += ["", "class %s_T(Packet):" % X] + optline
+    L += ["    m = Ref(%s_M)" % X, "    q = Ref(%s_M(%s))" % (X, _kwsrc(lay_m, fspec["q"])), "    e = Int(1)"]
+    body = "\n".join(L) + "\n"
+    if fam.mode == "local":
+        # function-local classes: instances cannot be pickled (the library then clones live objects)
+        names = [X, X + "_O", X + "_M", X + "_T"]
+        body = ("def _make_%s():\n" % X + "".join("    " + ln + "\n" if ln else "\n" for ln in body.split("\n")[:-1])
+                + "    return {%s}\n\n_classes_%s = _make_%s()\n" % (", ".join("%r: %s" % (n, n) for n in names), X, X))
+    fam.src = body
+    return fam
+
+
+def family_from_spec(spec):
+    return build_family(decl_from_spec(spec["inner"]), {k: v for k, v in spec.items() if k != "inner"})
+
+
+def define_family(ctx, fam):
+    """Define the classes of the family (file: importable module that stays registered so that instances can be
+    pickled by reference; local: inside a function of such a module; exec: namespace without __name__)."""
+    X = fam.d.name
+    names = [X, X + "_O", X + "_M", X + "_T"]
+    if fam.mode == "exec":
+        ns = {}
+        old = os.getcwd()
+        os.chdir(ctx.scratch)
+        try:
+            exec(NEST_HEADER + fam.src, ns)
+        finally:
+            os.chdir(old)
+        fam.classes = {n: ns[n] for n in names}
+    else:
+        module, path = render.load_source(NEST_HEADER + fam.src, ctx.scratch)
+        fam.module = module
+        if fam.mode == "local":
+            fam.classes = dict(getattr(module, "_classes_" + X))
+        else:
+            fam.classes = {n: getattr(module, n) for n in names}
+    fam.d.cls, fam.d.mode = fam.classes[X], fam.mode
+    import pickle
+    try:
+        pickle.loads(pickle.dumps(fam.classes[X]()))
+        fam.picklable = True
+    except Exception:
+        fam.picklable = False
+
+
+def undefine_family(fam):
+    if fam.module is not None:
+        forget_module(fam.module)
+    fam.module = None
+    fam.classes = {}
+    fam.d.cls = None
+
+
+# ---- the model of nested layouts ----------------------------------------------------------------------
+def leaf_defaults(d):
+    vals = default_values(d)
+    for kind, name, n in d.nonbits:
+        vals[name] = 0 if kind == "int" else b"\x00" * n
+    return vals
+
+
+def default_model(lay, partial):
+    """model of Cls(**partial): every part not named keeps the declared default (a clone of the Ref prototype,
+    a copy of the declared default list/packet, [] / None when nothing is declared)."""
+    if lay[0] == "leaf":
+        vals = leaf_defaults(lay[1])
+        vals.update(partial)
+        return vals
+    out = {}
+    for e in lay[2]:
+        attr = e[1]
+        if e[0] == "int":
+            out[attr] = partial.get(attr, e[2])
+        elif e[0] == "pkt":
+            out[attr] = default_model(e[2], partial[attr] if attr in partial else e[3])
+        elif e[0] == "seq":
+            lst = partial[attr] if attr in partial else (e[4] or [])
+            out[attr] = [default_model(e[2], p) for p in lst]
+        elif e[0] == "opt":
+            p = partial[attr] if attr in partial else e[3]
+            out[attr] = None if p is None else default_model(e[2], p)
+    return out
+
+
+def nest_encode(lay, mv):
+    if lay[0] == "leaf":
+        return model_encode(lay[1], mv)
+    out = bytearray()
+    for e in lay[2]:
+        v = mv[e[1]]
+        if e[0] == "int":
+            out += int(v).to_bytes(1, "big")
+        elif e[0] == "pkt":
+            out += nest_encode(e[2], v)
+        elif e[0] == "seq":
+            for x in v:
+                out += nest_encode(e[2], x)
+        elif e[0] == "opt":
+            if v is not None:
+                out += nest_encode(e[2], v)
+    return bytes(out)
+
+
+def nest_decode(lay, raw, off=0):
+    if lay[0] == "leaf":
+        nb = lay[1].nbytes
+        return model_decode(lay[1], raw[off:off + nb]), off + nb
+    out = {}
+    for e in lay[2]:
+        if e[0] == "int":
+            out[e[1]] = raw[off]
+            off += 1
+        elif e[0] == "pkt":
+            out[e[1]], off = nest_decode(e[2], raw, off)
+        elif e[0] == "seq":
+            cnt = out[e[3]] if isinstance(e[3], str) else e[3]
+            lst = []
+            for _ in range(cnt):
+                x, off = nest_decode(e[2], raw, off)
+                lst.append(x)
+            out[e[1]] = lst
+        elif e[0] == "opt":
+            if out["tag"] == 1:
+                out[e[1]], off = nest_decode(e[2], raw, off)
+            else:
+                out[e[1]] = None
+    return out, off
+
+
+def lay_at(lay, path):
+    for step in path:
+        if isinstance(step, int):
+            continue                      # element of a repeated field: lay is already the element's
+        for e in lay[2]:
+            if e[1] == step:
+                lay = e[2]
+                break
+        else:
+            raise KeyError(step)
+    return lay
+
+
+def obj_at(obj, path):
+    for step in path:
+        obj = obj[step] if isinstance(step, int) else getattr(obj, step)
+    return obj
+
+
+def model_at(mv, path):
+    for step in path:
+        mv = mv[step]
+    return mv
+
+
+def leaf_paths(lay, mv, path=()):
+    """paths of the bit-run packets present in a model value."""
+    if lay[0] == "leaf":
+        yield list(path)
+        return
+    for e in lay[2]:
+        v = mv[e[1]]
+        if e[0] == "pkt":
+            for p in leaf_paths(e[2], v, path + (e[1],)):
+                yield p
+        elif e[0] == "seq":
+            for i, x in enumerate(v):
+                for p in leaf_paths(e[2], x, path + (e[1], i)):
+                    yield p
+        elif e[0] == "opt" and v is not None:
+            for p in leaf_paths(e[2], v, path + (e[1],)):
+                yield p
+
+
+def nest_build(fam, lay, partial):
+    """Cls(**partial) with nested packets built the same way (keyword construction)."""
+    cls = fam.classes[lay_class(lay)]
+    if lay[0] == "leaf":
+        return cls(**partial)
+    kw = {}
+    for e in lay[2]:
+        if e[1] not in partial:
+            continue
+        p = partial[e[1]]
+        if e[0] == "int":
+            kw[e[1]] = p
+        elif e[0] == "pkt":
+            kw[e[1]] = nest_build(fam, e[2], p)
+        elif e[0] == "seq":
+            kw[e[1]] = [nest_build(fam, e[2], x) for x in p]
+        elif e[0] == "opt":
+            kw[e[1]] = None if p is None else nest_build(fam, e[2], p)
+    return cls(**kw)
+
+
+def nest_read_mismatches(fam, lay, pkt, mv, path, bad):
+    """what the packet reads versus the model, recursively; appends {'path', 'field', 'want', 'got'}."""
+    if len(bad) >= 8:
+        return
+    if lay[0] == "leaf":
+        d = lay[1]
+        for n in d.names:
+            now = getattr(pkt, n, UNSET)
+            want = mv[n]
+            if now is UNSET or type(now) is not type(want) or now != want:
+                bad.append({"path": list(path), "field": n, "want": want, "got": repr(now) if now is UNSET else now})
+        return
+    for e in lay[2]:
+        attr = e[1]
+        now = getattr(pkt, attr, UNSET)
+        want = mv[attr]
+        if e[0] == "int":
+            if now is UNSET or type(now) is not type(want) or now != want:
+                bad.append({"path": list(path), "field": attr, "want": want, "got": repr(now)})
+        elif e[0] == "pkt" or (e[0] == "opt" and want is not None):
+            if not isinstance(now, fam.classes[lay_class(e[2])]):
+                bad.append({"path": list(path), "field": attr, "want": "a %s packet" % lay_class(e[2]), "got": repr(now)[:80]})
+            else:
+                nest_read_mismatches(fam, e[2], now, want, path + [attr], bad)
+        elif e[0] == "opt":
+            if now is not None:
+                bad.append({"path": list(path), "field": attr, "want": None, "got": repr(now)[:80]})
+        elif e[0] == "seq":
+            if not isinstance(now, list) or len(now) != len(want):
+                bad.append({"path": list(path), "field": attr, "want": "list of %d packets" % len(want), "got": repr(now)[:80]})
+            else:
+                for i, x in enumerate(want):
+                    if not isinstance(now[i], fam.classes[lay_class(e[2])]):
+                        bad.append({"path": list(path) + [attr], "field": i, "want": "a packet", "got": repr(now[i])[:80]})
+                    else:
+                        nest_read_mismatches(fam, e[2], now[i], x, path + [attr, i], bad)
+
+
+def nest_witness(ctx, fam, op, **more):
+    w = {"family": fam.spec, "decl": fam.d.spec(), "source": NEST_HEADER + fam.src, "define_mode": fam.mode,
+         "instances_picklable": fam.picklable, "op": op}
+    w.update(more)
+    return w
+
+
+def do_copy(how, obj, protos, proto_id):
+    import copy
+    import pickle
+    if how == "copy":
+        return copy.copy(obj)
+    if how == "deepcopy":
+        return copy.deepcopy(obj)
+    if how == "clone":
+        if proto_id is None:
+            return obj.as_prototype().clone()
+        if proto_id not in protos:
+            protos[proto_id] = obj.as_prototype()
+        return protos[proto_id].clone()
+    proto = PICKLE_PROTOCOL[how]
+    data = pickle.dumps(obj) if proto is None else pickle.dumps(obj, proto)
+    return pickle.loads(data)
+
+
+def how_family(how):
+    return "pickle" if how.startswith("pickle") else how
+
+
+def op_nest(ctx, fam, op):
+    """A history over packets of one family.  Steps:
+        make    a packet of layout leaf/outer/mid/deep: default-constructed, keyword-constructed (nested packets built by
+                keywords too; parts not named keep their declared default) or unpacked
+        copy    a new packet from an existing one (or from a packet nested in it): copy.copy / copy.deepcopy / pickle round
+                trip / as_prototype().clone()
+        set     assign a field of the packet at a path;  put: assign a freshly built bit-run packet;  attach: assign packet B
+        check   the packet must read the values of its own model (type-exact), pack() must return the model's bytes (every
+                bit field modulo 2^w in its own slice), twice, and still read the same values afterwards.
+    The model of a copy is a copy of the model of its source at that moment (a shallow one for copy.copy: nested packets are
+    then only ever replaced, never mutated, so nothing depends on the sharing)."""
+    import copy as _copy
+    run = ctx.run
+    pk, mv, ly, info, protos, proto_mv = {}, {}, {}, {}, {}, {}
+    trace = []
+    touched_leaf_kinds = set()
+
+    def relatives(pid):
+        g = info[pid]["group"]
+        return [x for x in info if x != pid and info[x]["group"] == g]
+
+    def is_ancestor(a, b):
+        """a is (transitively) the source of b"""
+        p = info[b]["parent"]
+        while p is not None:
+            if p == a:
+                return True
+            p = info[p]["parent"]
+        return False
+
+    def mark_touched(pid):
+        info[pid]["touched"] = True
+        for other in relatives(pid):
+            if is_ancestor(other, pid):
+                info[other]["dirty"].add("derived")        # a packet derived from `other` was modified
+            elif is_ancestor(pid, other):
+                info[other]["dirty"].add("source")         # the source of `other` was modified after the copy
+            else:
+                info[other]["dirty"].add("sibling")
+        for host in info[pid]["hosts"]:
+            mark_touched(host)
+
+    for si, st in enumerate(op["steps"]):
+        do = st["do"]
+        pid = st["id"]
+        if do == "make":
+            lay = fam.lays[st["lay"]]
+            cls = fam.classes[lay_class(lay)]
+            mode = st["mode"]
+            try:
+                if mode == "unpack":
+                    pk[pid] = cls.unpack(st["raw"])
+                    mv[pid], used = nest_decode(lay, st["raw"])
+                elif mode == "default":
+                    pk[pid] = cls()
+                    mv[pid] = default_model(lay, {})
+                elif mode == "kw":
+                    pk[pid] = nest_build(fam, lay, st["values"])
+                    mv[pid] = default_model(lay, st["values"])
+                else:
+                    raise ValueError(mode)
+            except RecursionError:
+                raise
+            except Exception as e:
+                run.violation("building/parsing a packet that nests a bit-run packet raised (%s)" % mode,
+                              nest_witness(ctx, fam, op, step=si, raised=err_text(e), trace=trace))
+                return False
+            ly[pid] = lay
+            group = pid
+            if mode != "unpack":
+                # packets whose parts come from the same class-level prototypes/defaults: relatives ("siblings")
+                for x in info:
+                    if info[x]["lay"] == st["lay"] and info[x]["origin"] != "unpack" and info[x]["parent"] is None:
+                        group = info[x]["group"]
+                        break
+            info[pid] = {"lay": st["lay"], "origin": mode, "parent": None, "how": None, "group": group, "dirty": set(),
+                         "touched": False, "hosts": [], "extracted": False}
+            trace.append("%d make %s %s %s" % (si, pid, st["lay"], mode))
+        elif do == "copy":
+            src = st["from"]
+            path = st.get("path") or []
+            how = st["how"]
+            try:
+                obj = obj_at(pk[src], path)
+            except Exception as e:
+                run.violation("a nested bit-run packet is missing from its container",
+                              nest_witness(ctx, fam, op, step=si, raised=err_text(e), trace=trace))
+                return False
+            m = model_at(mv[src], path)
+            if how == "clone" and st.get("proto") is not None and st["proto"] in protos:
+                m = proto_mv[st["proto"]]          # the prototype was taken earlier: a snapshot of that moment
+            try:
+                new = do_copy(how, obj, protos, st.get("proto"))
+            except RecursionError:
+                raise
+            except Exception as e:
+                # whether a copy protocol is supported at all is not C07's business: counted, not judged
+                run.count("copy_raised_%s" % how)
+                run.cover("copy_protocols_raising", "%s: %s" % (how, type(e).__name__))
+                trace.append("%d copy %s <- %s %s raised %s" % (si, pid, src, how, type(e).__name__))
+                run.count("nest_histories_ended_by_unsupported_copy")
+                return True
+            if how == "clone" and st.get("proto") is not None and st["proto"] not in proto_mv:
+                proto_mv[st["proto"]] = _copy.deepcopy(m)
+            pk[pid] = new
+            mv[pid] = dict(m) if how == "copy" else _copy.deepcopy(m)
+            ly[pid] = lay_at(ly[src], path)
+            info[pid] = {"lay": "leaf" if ly[pid][0] == "leaf" else info[src]["lay"], "origin": info[src]["origin"],
+                         "parent": src, "how": how, "group": info[src]["group"], "dirty": set(), "touched": False,
+                         "hosts": [], "extracted": bool(path), "src_touched": info[src]["touched"]}
+            run.cover("copy_protocols_working", how)
+            trace.append("%d copy %s <- %s%s %s" % (si, pid, src, "".join("[%r]" % x for x in path), how))
+        elif do == "set":
+            path = st.get("path") or []
+            try:
+                setattr(obj_at(pk[pid], path), st["field"], st["value"])
+            except RecursionError:
+                raise
+            except Exception as e:
+                run.violation("assigning a field of a nested/copied bit-run packet raised",
+                              nest_witness(ctx, fam, op, step=si, raised=err_text(e), trace=trace))
+                return False
+            model_at(mv[pid], path)[st["field"]] = st["value"]
+            if path:
+                touched_leaf_kinds.add(path[0])
+            mark_touched(pid)
+            trace.append("%d set %s%s.%s" % (si, pid, "".join("[%r]" % x for x in path), st["field"]))
+        elif do == "put":
+            path = st.get("path") or []
+            host_lay = lay_at(ly[pid], path)
+            sub = lay_at(host_lay, [st["attr"]])
+            try:
+                setattr(obj_at(pk[pid], path), st["attr"], nest_build(fam, sub, st["values"]))
+            except RecursionError:
+                raise
+            except Exception as e:
+                run.violation("building a bit-run packet and assigning it to a Ref field raised",
+                              nest_witness(ctx, fam, op, step=si, raised=err_text(e), trace=trace))
+                return False
+            model_at(mv[pid], path)[st["attr"]] = default_model(sub, st["values"])
+            mark_touched(pid)
+            trace.append("%d put %s.%s" % (si, pid, st["attr"]))
+        elif do == "attach":
+            other = st["obj"]
+            setattr(pk[pid], st["attr"], pk[other])
+            mv[pid][st["attr"]] = mv[other]          # the same object on both sides: later sets through `other` show in pid
+            info[other]["hosts"].append(pid)
+            if info[other]["parent"] is not None:
+                info[pid]["holds_copy"] = True
+            mark_touched(pid)
+            trace.append("%d attach %s.%s = %s" % (si, pid, st["attr"], other))
+        elif do == "check":
+            lay = ly[pid]
+            inf = info[pid]
+            origin_txt = describe_origin(inf, info)
+            bad = []
+            nest_read_mismatches(fam, lay, pk[pid], mv[pid], [], bad)
+            if bad:
+                what = "unpack of a packet nesting bit-run packets: a bit field does not hold exactly its own slice"
+                if inf["parent"] is not None or inf["touched"] or inf["dirty"] or inf["origin"] != "unpack":
+                    what = ("%s: its fields do not read what was parsed/assigned (own values lost, or disturbed by operations "
+                            "on another packet)" % origin_txt)
+                run.violation(what, nest_witness(ctx, fam, op, step=si, packet=pid, mismatches=bad, trace=trace))
+                return False
+            want = nest_encode(lay, mv[pid])
+            status, got = ctx.lib_pack(pk[pid])
+            trace.append("%d check %s -> %s" % (si, pid, status))
+            if status != "ok":
+                run.violation("%s: pack of integer values raised instead of writing each bit field modulo 2^width into its slice"
+                              % origin_txt,
+                              nest_witness(ctx, fam, op, step=si, packet=pid, raised=err_text(got), status=status,
+                                           want=b2j(want), values=mv[pid], trace=trace))
+                return False
+            if got != want:
+                run.violation("%s: packed bytes differ from the model of its own values (sum((v mod 2^w) << shift) per run, "
+                              "big-endian)" % origin_txt,
+                              nest_witness(ctx, fam, op, step=si, packet=pid, got=b2j(got), want=b2j(want), values=mv[pid],
+                                           trace=trace))
+                return False
+            status, again = ctx.lib_pack(pk[pid])
+            if status != "ok" or again != got:
+                run.violation("%s: a second pack() did not return the same bytes" % origin_txt,
+                              nest_witness(ctx, fam, op, step=si, packet=pid, first=b2j(got),
+                                           second=(b2j(again) if status == "ok" else err_text(again)), trace=trace))
+                return False
+            bad = []
+            nest_read_mismatches(fam, lay, pk[pid], mv[pid], [], bad)
+            if bad:
+                run.violation("%s: pack() changed the value of a field" % origin_txt,
+                              nest_witness(ctx, fam, op, step=si, packet=pid, mismatches=bad, trace=trace))
+                return False
+            count_check(run, fam, lay, mv[pid], inf, touched_leaf_kinds)
+            inf["dirty"] = set()
+        else:
+            raise ValueError(st)
+    run.count("nest_histories_run")
+    return True
+
+
+def describe_origin(inf, info):
+    chain = []
+    x = inf
+    while x["parent"] is not None:
+        chain.append(HOW_TEXT[x["how"]] + (" of a packet nested in" if x["extracted"] else " of"))
+        x = info[x["parent"]]
+    base = {"default": "a default-constructed", "kw": "a keyword-constructed", "unpack": "an unpacked"}[x["origin"]]
+    what = "bit-run packet" if x["lay"] == "leaf" else "packet nesting bit-run packets through Ref"
+    if inf.get("holds_copy"):
+        what += " (one of its Ref fields was assigned a copied bit-run packet)"
+    if chain:
+        return "%s %s %s" % (" ".join(chain), base, what)
+    return "%s %s" % (base[base.index(" ") + 1:], what)
+
+
+def count_check(run, fam, lay, mv, inf, touched_kinds):
+    """evidence: what kind of packet just passed the oracle."""
+    run.count("nest_checks_passed")
+    run.count("nest_checks_inner_variant_%s" % fam.d.variant)
+    run.count("nest_checks_define_%s" % fam.mode)
+    nested = lay[0] != "leaf"
+    if nested:
+        run.count("nest_checks_outer_variant_%s" % fam.spec["ovariant"])
+        run.count("nested_%s_checked" % inf["origin"])
+        kinds = {}
+        for p in leaf_paths(lay, mv):
+            kinds[p[0]] = kinds.get(p[0], 0) + 1
+        for k, n in kinds.items():
+            run.count("nested_%s_packets_compared" % PATH_KIND[k], n)
+        if mv.get("o", 0) is None:
+            run.count("nested_optional_absent_checked")
+        if inf["touched"]:
+            run.count("nested_then_assigned_compared")
+    if inf["parent"] is not None:
+        hf = how_family(inf["how"])
+        run.count("copies_%s_compared" % hf)
+        run.count("copies_how_%s_compared" % inf["how"])
+        run.count("copies_of_%s_compared" % ("parsed" if inf["origin"] == "unpack" else "built"))
+        run.count("copies_of_%s_compared" % ("nesting_packets" if nested else "bit_run_packets"))
+        if inf["extracted"]:
+            run.count("copies_of_a_nested_packet_compared")
+        if inf["touched"]:
+            run.count("copy_then_assign_compared")
+        if inf.get("src_touched"):
+            run.count("copies_of_modified_packets_compared")
+        if fam.picklable:
+            run.count("copies_picklable_class_compared")
+        else:
+            run.count("copies_live_object_path_compared")
+        if "source" in inf["dirty"]:
+            run.count("copy_after_ops_on_original_compared")
+    if "derived" in inf["dirty"]:
+        run.count("original_after_ops_on_copy_compared")
+    if "sibling" in inf["dirty"]:
+        run.count("sibling_after_ops_on_sibling_compared")
+    if inf.get("holds_copy"):
+        run.count("copies_attached_to_container_compared")
+
+
+# ---- scenario generation ----------------------------------------------------------------------------------
+def gen_leaf_partial(rng, d, style=None):
+    """keyword values of a bit-run packet: all members / a subset (the others keep their defaults), in range or not."""
+    style = style or rng.choice(["all", "all", "oor", "subset", "subset_oor"])
+    vals = {}
+    for n, (w, shift, r, dv) in d.bits.items():
+        if style.startswith("subset") and rng.random() < 0.5:
+            continue
+        if style.endswith("oor") and rng.random() < 0.5:
+            k = rng.choice([-3, -2, -1, 1, 2, 1 << 40, -(1 << 66)])
+            vals[n] = rng.getrandbits(w) + k * (1 << w)
+        else:
+            vals[n] = rng.choice([rng.getrandbits(w), (1 << w) - 1, rng.getrandbits(w)])
+    nb = nonbits_values(rng, d)
+    for n, v in nb.items():
+        if not style.startswith("subset") or rng.random() < 0.5:
+            vals[n] = v
+    return vals
+
+
+def gen_leaf_raw(rng, d):
+    run_segs = [s for s in d.segs if s[0] == "run"]
+    ints = []
+    for s in run_segs:
+        total = s[2] * 8
+        ones = (1 << total) - 1
+        fname, w, shift = rng.choice(s[1])
+        m = ((1 << w) - 1) << shift
+        ints.append(rng.choice([rng.getrandbits(total), rng.getrandbits(total), ones, m, ones ^ m,
+                                int.from_bytes(b"\xa5" * s[2], "big")]))
+    return raw_with_runs(rng, d, ints)
+
+
+def gen_raw(rng, lay, top=None):
+    if lay[0] == "leaf":
+        return gen_leaf_raw(rng, lay[1])
+    out = bytearray()
+    vals = {}
+    for e in lay[2]:
+        if e[0] == "int":
+            if e[1] == "tag":
+                v = rng.choice([1, 1, 0, 2])
+            elif e[1] == "n":
+                v = rng.choice([2, 1, 3, 0, 2])
+            else:
+                v = rng.getrandbits(8)
+            vals[e[1]] = v
+            out.append(v)
+        elif e[0] == "pkt":
+            out += gen_raw(rng, e[2])
+        elif e[0] == "seq":
+            cnt = vals[e[3]] if isinstance(e[3], str) else e[3]
+            for _ in range(cnt):
+                out += gen_raw(rng, e[2])
+        elif e[0] == "opt":
+            if vals["tag"] == 1:
+                out += gen_raw(rng, e[2])
+    return bytes(out)
+
+
+def gen_partial(rng, lay, full):
+    """keyword values for a container: full = every part given, else a random subset (the rest keeps its default)."""
+    if lay[0] == "leaf":
+        return gen_leaf_partial(rng, lay[1])
+    out = {}
+    for e in lay[2]:
+        if not full and rng.random() < 0.5:
+            continue
+        if e[0] == "int":
+            out[e[1]] = 1 if e[1] == "tag" else (2 if e[1] == "n" else rng.getrandbits(8))
+        elif e[0] == "pkt":
+            out[e[1]] = gen_partial(rng, e[2], full or rng.random() < 0.5)
+        elif e[0] == "seq":
+            out[e[1]] = [gen_partial(rng, e[2], True) for _ in range(2)]
+        elif e[0] == "opt":
+            out[e[1]] = gen_partial(rng, e[2], True)
+    if "h" in out:
+        out["n"] = len(out["h"])
+    return out
+
+
+def gen_make(rng, fam, pid, layname, origin):
+    lay = fam.lays[layname]
+    if origin == "unpack":
+        return {"do": "make", "id": pid, "lay": layname, "mode": "unpack", "raw": gen_raw(rng, lay)}
+    if origin == "default":
+        return {"do": "make", "id": pid, "lay": layname, "mode": "default"}
+    return {"do": "make", "id": pid, "lay": layname, "mode": "kw", "values": gen_partial(rng, lay, origin == "kw_full")}
+
+
+def model_of_make(fam, st):
+    lay = fam.lays[st["lay"]]
+    if st["mode"] == "unpack":
+        return nest_decode(lay, st["raw"])[0]
+    if st["mode"] == "default":
+        return default_model(lay, {})
+    return default_model(lay, st["values"])
+
+
+def gen_sets(rng, fam, pid, lay, mv, k_leaves=3, per_leaf=2, only=None):
+    """assignments to bit fields (all value classes) of up to k_leaves bit-run packets below `pid`."""
+    paths = list(leaf_paths(lay, mv))
+    if only is not None:
+        paths = [p for p in paths if p and p[0] in only] or paths
+    if len(paths) > k_leaves:
+        paths = rng.sample(paths, k_leaves)
+    d = fam.d
+    names = list(d.bits)
+    steps = []
+    for p in paths:
+        for _ in range(per_leaf):
+            fname = rng.choice(names)
+            label, v = rng.choice(field_values(rng, d.bits[fname][0]))
+            steps.append({"do": "set", "id": pid, "path": p, "field": fname, "value": v, "value_label": label})
+        if d.nonbits and rng.random() < 0.3:
+            kind, name, n = rng.choice(d.nonbits)
+            v = rng.getrandbits(8 * n) if kind == "int" else bytes(rng.getrandbits(8) for _ in range(n))
+            steps.append({"do": "set", "id": pid, "path": p, "field": name, "value": v})
+    return steps
+
+
+def chk(pid):
+    return {"do": "check", "id": pid}
+
+
+def sc_leaf_copy(rng, fam, how, origin, how2=None):
+    d = fam.d
+    leaf = fam.lays["leaf"]
+    a = gen_make(rng, fam, "A", "leaf", origin)
+    m = model_of_make(fam, a)
+    steps = [a]
+    if rng.random() < 0.5:
+        steps.append(chk("A"))            # packed before the copy: the shared integer has been used
+    if origin != "unpack" and rng.random() < 0.4:
+        steps += gen_sets(rng, fam, "A", leaf, m, per_leaf=1)
+    steps.append({"do": "copy", "id": "B", "from": "A", "how": how})
+    steps.append(chk("B"))
+    steps += gen_sets(rng, fam, "B", leaf, m, per_leaf=rng.choice([1, 1, 2, len(d.bits)]))
+    steps += [chk("B"), chk("A")]
+    steps += gen_sets(rng, fam, "A", leaf, m, per_leaf=rng.choice([1, 2]))
+    steps += [chk("A"), chk("B")]
+    if how2:
+        steps.append({"do": "copy", "id": "C", "from": "B", "how": how2})
+        steps += gen_sets(rng, fam, "C", leaf, m, per_leaf=2)
+        steps += [chk("C"), chk("B"), chk("A")]
+    return {"kind": "nest", "template": "leaf_copy", "steps": steps}
+
+
+def sc_outer_make(rng, fam, layname, origin):
+    lay = fam.lays[layname]
+    a = gen_make(rng, fam, "O", layname, origin)
+    m = model_of_make(fam, a)
+    steps = [a, chk("O")]
+    steps += gen_sets(rng, fam, "O", lay, m, k_leaves=6, per_leaf=2)
+    steps.append(chk("O"))
+    if origin != "unpack":
+        # a second packet whose parts come from the same prototypes / declared defaults
+        b = gen_make(rng, fam, "P", layname, "default" if rng.random() < 0.6 else "kw_part")
+        mb = model_of_make(fam, b)
+        steps += [b, chk("P")]
+        steps += gen_sets(rng, fam, "P", lay, mb, k_leaves=4, per_leaf=1)
+        steps += [chk("P"), chk("O")]
+        steps += [{"do": "make", "id": "Q", "lay": layname, "mode": "default"}, chk("Q")]
+    return {"kind": "nest", "template": "outer_make", "steps": steps}
+
+
+def sc_outer_copy(rng, fam, layname, how, origin):
+    lay = fam.lays[layname]
+    a = gen_make(rng, fam, "O", layname, origin)
+    m = model_of_make(fam, a)
+    steps = [a]
+    if rng.random() < 0.5:
+        steps.append(chk("O"))
+    steps.append({"do": "copy", "id": "P", "from": "O", "how": how})
+    steps.append(chk("P"))
+    pkt_attrs = [e[1] for e in lay[2] if e[0] in ("pkt", "opt")]
+    if how == "copy":
+        # shallow: replace whole sub-packets, never mutate a shared one
+        for attr in rng.sample(pkt_attrs, min(2, len(pkt_attrs))):
+            sub = lay_at(lay, [attr])
+            steps.append({"do": "put", "id": "P", "attr": attr, "values": gen_partial(rng, sub, rng.random() < 0.5)})
+        steps += [chk("P"), chk("O")]
+        attr = rng.choice(pkt_attrs)
+        steps.append({"do": "put", "id": "O", "attr": attr, "values": gen_partial(rng, lay_at(lay, [attr]), True)})
+        steps += [chk("O"), chk("P")]
+    else:
+        steps += gen_sets(rng, fam, "P", lay, m, k_leaves=5, per_leaf=2)
+        steps += [chk("P"), chk("O")]
+        steps += gen_sets(rng, fam, "O", lay, m, k_leaves=3, per_leaf=1)
+        steps += [chk("O"), chk("P")]
+    return {"kind": "nest", "template": "outer_copy", "steps": steps}
+
+
+def sc_extract_copy(rng, fam, how, origin):
+    lay = fam.lays["outer"]
+    a = gen_make(rng, fam, "O", "outer", origin)
+    m = model_of_make(fam, a)
+    paths = list(leaf_paths(lay, m))
+    path = rng.choice(paths)
+    steps = [a, {"do": "copy", "id": "B", "from": "O", "path": path, "how": how}, chk("B")]
+    steps += gen_sets(rng, fam, "B", fam.lays["leaf"], model_at(m, path), per_leaf=2)
+    steps += [chk("B"), chk("O")]
+    d = fam.d
+    fname = rng.choice(list(d.bits))
+    label, v = rng.choice(field_values(rng, d.bits[fname][0]))
+    steps.append({"do": "set", "id": "O", "path": path, "field": fname, "value": v, "value_label": label})
+    steps += [chk("O"), chk("B")]
+    return {"kind": "nest", "template": "extract_copy", "steps": steps}
+
+
+def sc_insert_copy(rng, fam, how, origin):
+    leaf = fam.lays["leaf"]
+    a = gen_make(rng, fam, "A", "leaf", origin)
+    m = model_of_make(fam, a)
+    steps = [a, gen_make(rng, fam, "O", "outer", rng.choice(["default", "unpack"])),
+             {"do": "copy", "id": "B", "from": "A", "how": how},
+             {"do": "attach", "id": "O", "attr": rng.choice(["f", "g", "o", "c"]), "obj": "B"}, chk("O")]
+    steps += gen_sets(rng, fam, "B", leaf, m, per_leaf=2)
+    steps += [chk("O"), chk("A")]
+    return {"kind": "nest", "template": "insert_copy", "steps": steps}
+
+
+def sc_clone_twice(rng, fam, layname, origin):
+    lay = fam.lays[layname]
+    a = gen_make(rng, fam, "A", layname, origin)
+    m = model_of_make(fam, a)
+    steps = [a, {"do": "copy", "id": "B", "from": "A", "how": "clone", "proto": "P1"}]
+    steps += gen_sets(rng, fam, "A", lay, m, k_leaves=2, per_leaf=1)       # after the prototype was taken
+    steps.append({"do": "copy", "id": "C", "from": "A", "how": "clone", "proto": "P1"})
+    steps += gen_sets(rng, fam, "B", lay, m, k_leaves=3, per_leaf=2)
+    steps += [chk("C"), chk("B"), chk("A")]
+    steps += gen_sets(rng, fam, "C", lay, m, k_leaves=2, per_leaf=1)
+    steps += [chk("B"), chk("C")]
+    return {"kind": "nest", "template": "clone_twice", "steps": steps}
+
+
+ORIGINS_LEAF = ("kw_full", "unpack", "default", "kw_part")
+ORIGINS_OUTER = ("default", "kw_full", "unpack", "kw_part")
+
+
+def family_scenarios(rng, fam, idx, rich):
+    """the histories run on one family; hows/origins rotate with idx so that every combination is met across families."""
+    out = []
+    hows = list(HOWS_MAIN)
+    if not fam.picklable:
+        # instances cannot be pickled (function-local / exec-defined classes): one pickle attempt (counted), the rest goes
+        # through the protocols that work there - Ref and as_prototype() clone live objects for these classes
+        hows = ["copy", "deepcopy", "clone", "deepcopy", "pickle", "clone"]
+    r = idx % len(hows)
+    hows = hows[r:] + hows[:r]
+    for i, origin in enumerate(ORIGINS_OUTER):
+        out.append(sc_outer_make(rng, fam, "outer", origin))
+    for i, how in enumerate(hows):
+        out.append(sc_leaf_copy(rng, fam, how, ORIGINS_LEAF[(idx + i) % 4], how2=hows[(i + 2) % len(hows)] if i % 3 == 0 else None))
+    for i, how in enumerate(hows if rich else hows[:4]):
+        out.append(sc_outer_copy(rng, fam, "outer", how, ORIGINS_OUTER[(idx + i) % 4]))
+    for i in range(2):
+        out.append(sc_extract_copy(rng, fam, hows[(i + 1) % len(hows)], ORIGINS_OUTER[(idx + i + 1) % 3]))
+        out.append(sc_insert_copy(rng, fam, hows[(i + 3) % len(hows)], ORIGINS_LEAF[(idx + i) % 2]))
+    out.append(sc_clone_twice(rng, fam, ("leaf", "outer")[idx % 2], ORIGINS_LEAF[idx % 3]))
+    # two levels of nesting
+    out.append(sc_outer_make(rng, fam, "deep", ("default", "kw_part", "unpack", "kw_full")[idx % 4]))
+    out.append(sc_outer_copy(rng, fam, "deep", hows[0], ("unpack", "default", "kw_full")[idx % 3]))
+    if rich:
+        out.append(sc_outer_copy(rng, fam, "deep", hows[3], "default"))
+        out.append(sc_clone_twice(rng, fam, "deep", "default"))
+    if idx % 4 == 0:
+        # protocols the unchanged library does not support for packets (pickle protocols 0 and 1): counted only
+        out.append(sc_leaf_copy(rng, fam, HOWS_PROBE[(idx // 4) % 2], "kw_full"))
+    return out
+
+
+def sample_family(rng, idx, seed_off):
+    """inner class: compositions of 8 bits (rotating through all 128) and wider sampled ones, every shape."""
+    if idx % 3 == 0:
+        m = (idx // 3 + seed_off) % 128
+        shape = ("solo", "emb", "vec")[(idx // 9) % 3]
+        d = build_decl(fresh_name("N"), shape, [composition_from_mask(8, m)], VARIANTS[(idx // 3) % 3])
+        if rng.random() < 0.3:
+            d = build_decl(d.name, shape, d.runs, d.variant, [[rng.getrandbits(w) if rng.random() < 0.7 else None for w in d.runs[0]]])
+    else:
+        d0 = sample_decl(rng, idx, [16, 24, 32, 16, 24, 40, 64])
+        d = build_decl(fresh_name("N"), d0.shape, d0.runs, VARIANTS[(idx // 3) % 3], d0.defaults, d0.little)
+    leaf = ("leaf", d)
+    mode = ("file", "file", "local", "file", "exec")[idx % 5]
+    fspec = {
+        "ovariant": VARIANTS[(idx // 2) % 3],
+        "g": gen_leaf_partial(rng, d, rng.choice(["subset", "subset_oor", "all", "oor"])),
+        "hd": None if idx % 2 else [gen_leaf_partial(rng, d, "subset_oor"), gen_leaf_partial(rng, d, "all")],
+        "od": None if idx % 4 < 2 else gen_leaf_partial(rng, d, "subset"),
+        "cd": gen_leaf_partial(rng, d, rng.choice(["subset", "all", "oor"])),
+        "q": {"k": rng.getrandbits(8), "f": gen_leaf_partial(rng, d, rng.choice(["subset_oor", "all"]))},
+        "count": "field" if idx % 3 else "const",
+        "define": mode,
+    }
+    # (count 'const' without a declared default: a default-constructed packet holds h == [] although the declared count
+    # is 2; pack writes the list it holds - the model does the same)
+    return build_family(d, fspec)
+
+
+def run_nest_op(ctx, fam, op):
+    ok = op_nest(ctx, fam, op)
+    ctx.run.case(key="nest|%s|%s" % (op["template"], fam.key()), nontrivial=True)
+    return ok
+
+
+def part_d(ctx, rng, shard, nshards, count, deadline, rich):
+    run = ctx.run
+    done = 0
+    seed_off = rng.randrange(128)
+    for idx in range(count):
+        if time.time() > deadline:
+            run.extra["partD_families_done_when_time_capped"] = done
+            break
+        gidx = idx * nshards + shard
+        fam = sample_family(rng, gidx, seed_off)
+        try:
+            define_family(ctx, fam)
+        except RecursionError:
+            raise
+        except Exception as e:
+            run.case(key="nest_define|" + fam.key(), nontrivial=True)
+            run.violation("classes nesting a valid bit-run packet through Ref could not be defined",
+                          nest_witness(ctx, fam, {"kind": "nest_define"}, raised=err_text(e)))
+            undefine_family(fam)
+            if ctx.stop():
+                return
+            continue
+        run.count("nest_families_defined")
+        run.count("nest_families_define_%s" % fam.mode)
+        run.count("nest_families_instances_%s" % ("picklable" if fam.picklable else "not_picklable"))
+        run.cover("nest_inner_shapes", fam.d.shape)
+        run.cover("nest_variant_pairs", "%s/%s" % (fam.d.variant, fam.spec["ovariant"]))
+        try:
+            for op in family_scenarios(rng, fam, gidx, rich):
+                ok = run_nest_op(ctx, fam, op)
+                if ok and op["template"] not in ctx.covered:
+                    ctx.covered.add(op["template"])
+                    run.cover("nest_templates", op["template"])
+                    if op["template"] in ("outer_copy", "leaf_copy") and len(run.samples) < 8:
+                        run.sample(nest_witness(ctx, fam, op), cap=8)
+                if not ok and ctx.stop():
+                    return
+        finally:
+            undefine_family(fam)
+        done += 1
+        if done == 12:
+            ctx.anchors.pause()
+    run.extra["partD_families"] = done
+
+
+# =============================================================================================
 # anchor counters (evidence only): how often the anchored functions actually ran
 # =============================================================================================
 class Anchors:
@@ -1527,10 +2539,18 @@ def run(run):
             run.extra["partT_seconds_summed_over_shards"] = round(time.time() - t0, 1)
         anchors.resume()
         if not ctx.stop():
+            td = time.time()
+            if thorough:
+                part_d(ctx, rng_for(run.seed, "c07", "D", shard), shard, nshards, 400, td + 60, True)
+            else:
+                part_d(ctx, rng_for(run.seed, "c07", "D", shard), shard, nshards, 200, td + 14, False)
+            run.extra["partD_seconds_summed_over_shards"] = round(time.time() - td, 1)
+        anchors.resume()
+        if not ctx.stop():
             if thorough:
                 part_b(ctx, rng, 2000, t0 + 540, True)
             else:
-                part_b(ctx, rng, 1500, t0 + 50, False)
+                part_b(ctx, rng, 1500, t0 + 64, False)
     finally:
         anchors.stop(run)
         common.drop_scratch(ctx.scratch)
@@ -1556,6 +2576,25 @@ def replay(run, rec):
         d = decl_from_spec(w["decl"])
         op = _unjson(w["op"])
         kind = op["kind"]
+        if kind in ("nest", "nest_define"):
+            fam = family_from_spec(_unjson(w["family"]))
+            print("replaying %s on\n%s" % (kind, NEST_HEADER + fam.src))
+            try:
+                define_family(ctx, fam)
+                if kind == "nest":
+                    op_nest(ctx, fam, op)
+            except Exception as e:
+                if kind == "nest_define":
+                    run.violation("classes nesting a valid bit-run packet through Ref could not be defined",
+                                  nest_witness(ctx, fam, op, raised=err_text(e)))
+                else:
+                    raise
+            finally:
+                undefine_family(fam)
+            run.case(key="replay|" + fam.key(), nontrivial=True)
+            if not run.violations:
+                print("replay: the recorded case did not produce a violation on this tree")
+            return
         print("replaying %s on\n%s" % (kind, HEADER + d.src))
         if kind == "define_bad":
             op_define_bad(ctx, d, op)
